@@ -202,6 +202,9 @@ type c14Model struct {
 	EverKey  map[string]bool // name|key
 	EverVal  map[string]bool // name|key|val
 	EverSer  map[string]bool
+	// generator state: the measurement dropped by the previous op, so that the next op can
+	// re-create only its tag-less series (a series that enters no tag loop of the log file)
+	justDropped string
 }
 
 func newC14Model() *c14Model {
@@ -546,6 +549,12 @@ func c14GenOp(rg *vkit.Rand, m *c14Model, pool []gixSeries) c14Op {
 		live = append(live, s)
 	}
 	sort.Strings(live)
+	if jd := m.justDropped; jd != "" {
+		m.justDropped = ""
+		if rg.Chance(1, 2) {
+			return c14Op{Kind: "create", Series: []string{gixSeries{jd, map[string]string{}}.String()}}
+		}
+	}
 	switch x := rg.Intn(20); {
 	case x < 8 || len(live) == 0:
 		op := c14Op{Kind: "create"}
@@ -561,6 +570,7 @@ func c14GenOp(rg *vkit.Rand, m *c14Model, pool []gixSeries) c14Op {
 		return op
 	case x < 14:
 		name := m.Live[vkit.Pick(rg, live)].Name
+		m.justDropped = name
 		op := c14Op{Kind: "drop_measurement", Name: name, Cascade: rg.Bool()}
 		for _, s := range live {
 			if m.Live[s].Name == name {
